@@ -356,7 +356,7 @@ theorem C18_numeric_units_signs {K : Type} [Field K] (av : A → QV K)
 /-! ### templates -/
 
 /-- Full statement: the round trip below also for holes that carry a slice `[a:b,c]` — a non-empty
-    list of entries `(a, b)` with optional bounds, rendered `a:b`, `a:`, `:b`, `:` and `n` for `(n, n)`,
+    list of entries, an index `n` or a range with optional bounds rendered `a:b`, `a:`, `:b`, `:`,
     bounds in decimal (`toString`), entries joined by commas.  Proved as `C18_template` (the model's
     `parseSlice` splits the slice body with the list splitter `List.splitOn`; the scan of every
     generated template is still compared with the generated pieces on every run). -/
@@ -376,8 +376,8 @@ theorem C18_template_partial (ps : List Piece) (hp : ∀ p ∈ ps, PieceOK p) :
 /-- **The slice parser inverts the slice renderer**: for every non-empty list of entries with
     arbitrary optional bounds, `parseSlice` applied to `[e1,e2,…]` followed by any text returns exactly
     the entries and the text behind the closing bracket (decimal numerals of any size read back to
-    the same number, `n` alone read as `(n, n)`, missing bounds stay missing). -/
-theorem C18_template_slice (l : List (Option Nat × Option Nat)) (hl : l ≠ []) (more : List Char) :
+    the same number, `n` alone read as an index and `n:n` as a range, missing bounds stay missing). -/
+theorem C18_template_slice (l : List SliceEntry) (hl : l ≠ []) (more : List Char) :
     parseSlice (renderSlice l ++ more) = some (l, more) :=
   parseSlice_render l hl more
 
@@ -443,16 +443,16 @@ example : PiecesOK [.text '{', .text ' ', .text '}', .hole "?a".toList none none
 example : PlainOK ['f', '(', 'x', ')', '{', ' ', 'r', 'e', 't', 'u', 'r', 'n', ' ', '{', 'x', '}', ';', ' ', '}'] := by
   decide
 /-- `"x={{?v}[1]:.2f};"` with the hole formatted as `2.00` gives `"x=2.00;"` -/
-example : solveTemplate (fun p sl fm => if p = "?v".toList ∧ sl = some [(some 1, some 1)] ∧ fm = some ":.2f".toList
+example : solveTemplate (fun p sl fm => if p = "?v".toList ∧ sl = some [.idx 1] ∧ fm = some ":.2f".toList
       then some "2.00".toList else none) "x={{?v}[1]:.2f};".toList = some "x=2.00;".toList := by
   decide +kernel
-/-- `{{?mat}[1,:3,2:,:,0:12]:.2e}` is a piece of the full template statement -/
-example : PieceOKS (.hole "?mat".toList (some [(some 1, some 1), (none, some 3), (some 2, none), (none, none),
-    (some 0, some 12)]) (some ":.2e".toList)) :=
+/-- `{{?mat}[1,:3,2:,:,0:12,4:4]:.2e}` is a piece of the full template statement -/
+example : PieceOKS (.hole "?mat".toList (some [.idx 1, .range none (some 3), .range (some 2) none, .range none none,
+    .range (some 0) (some 12), .range (some 4) (some 4)]) (some ":.2e".toList)) :=
   ⟨by decide, by decide, fun l hl => by cases hl; simp, fun f hf => by
     cases hf; exact ⟨⟨".2".toList, "e".toList, rfl, by decide, by decide, by decide⟩⟩⟩
-example : renderPieceS (.hole "?mat".toList (some [(some 1, some 1), (none, some 3), (some 2, none), (none, none),
-    (some 0, some 12)]) (some ":.2e".toList)) = "{{?mat}[1,:3,2:,:,0:12]:.2e}".toList := by decide +kernel
+example : renderPieceS (.hole "?mat".toList (some [.idx 1, .range none (some 3), .range (some 2) none, .range none none,
+    .range (some 0) (some 12), .range (some 4) (some 4)]) (some ":.2e".toList)) = "{{?mat}[1,:3,2:,:,0:12,4:4]:.2e}".toList := by decide +kernel
 example : (E.bin "add" (.lit (1 : Nat)) (.bin "mul" (.pre "sub" (.lit 2)) (.fn2 "powb" (.par (.bin "sub" (.lit 3)
     (.bin "pow" (.lit 4) (.lit 5)))) (.lit 2)))).WF numGrammar := by simp [E.WF, numGrammar, E.top]
 example : (E.bin "or" (.lit (0 : Nat)) (.bin "and" (.pre "not" (.bin "le" (.lit 1) (.lit 2))) (.par (.lit 3)))).WF
